@@ -72,28 +72,30 @@ type acct struct {
 }
 
 type adapter struct {
-	w        *node.World
-	dir      string
-	seed     int64
-	accs     []*acct
-	byName   map[string]*acct
-	byAddr   map[common.Address]string
-	setup    []*types.Block // S1, S2 built once per process
-	assetID  common.Hash
-	gen      *node.Node // builds the setup blocks
-	B, V     *node.Node
-	parent   *types.Block
-	pending  []*atx
-	last     *types.Block
-	lastTxs  []*atx
-	seq      int
-	txseq    uint64
-	initBal  map[string]int64
-	height   int
-	nbuild   int
-	nbeh     int
-	dirty    bool
-	recycle  int
+	w       *node.World
+	dir     string
+	seed    int64
+	accs    []*acct
+	byName  map[string]*acct
+	byAddr  map[common.Address]string
+	setup   []*types.Block // S1, S2 built once per process
+	assetID common.Hash
+	gen     *node.Node // builds the setup blocks
+	B, V    *node.Node
+	parent  *types.Block
+	pending []*atx
+	last    *types.Block
+	lastTxs []*atx
+	seq     int
+	txseq   uint64
+	initBal map[string]int64
+	height  int
+	nbuild  int
+	nbeh    int
+	retired []retiredNode
+	logPre  bool
+	dirty   bool
+	recycle int
 }
 
 func detKey(tag byte, i int) *ecdsa.PrivateKey {
@@ -127,6 +129,7 @@ var runtimeCode = map[string][]byte{
 	"KD": {0x30, 0xff},                   // SELFDESTRUCT(ADDRESS): burns its balance
 	"KO": {0x33, 0xff},                   // SELFDESTRUCT(CALLER): hands its balance to the caller
 }
+
 // what the setup transactions of an account cost it, roughly (deposit + fees), so that it starts the scenario near initBal
 var setupCost = map[string]int64{"a1": 35, "a3": 300 + 112, "a4": 75 + 2*60, "M1": 112, "M2": 112}
 var contractNames = []string{"KS", "KR", "KX", "KD", "KO"}
@@ -375,6 +378,18 @@ func (a *adapter) fresh(tag string) *node.Node {
 	if n.DP.StableBlock().Hash() != a.setup[len(a.setup)-1].Hash() {
 		engine.Failf("setup blocks did not become stable on %s", tag)
 	}
+	// The store writes the asset-code -> issuer index of a stable block from a background goroutine; until then the
+	// processor of this node discards / rejects every transaction on the asset ("asset dose not exist").  Wait for it
+	// (setup only; no verdict depends on the clock).
+	for i := 0; ; i++ {
+		if is, err := n.DB.GetAssetCode(a.assetID); err == nil && is == a.byName["a4"].addr {
+			break
+		}
+		if i > 20000 {
+			engine.Failf("asset index of the stable setup blocks never appeared on %s", tag)
+		}
+		time.Sleep(time.Millisecond)
+	}
 	return n
 }
 
@@ -386,10 +401,8 @@ func (a *adapter) Reset(init map[string]tla.Value) (engine.Fields, error) {
 	}
 	if a.B == nil || a.dirty || a.nbeh%a.recycle == 0 {
 		a.dirty = false
-		if a.B != nil {
-			a.B.Destroy()
-			a.V.Destroy()
-		}
+		a.retire(a.B, a.V)
+		a.reap(false)
 		a.seq++
 		a.B, a.V = a.fresh("b"), a.fresh("v")
 	}
@@ -582,7 +595,9 @@ func (a *adapter) logBlock(fl engine.Fields, db *store.ChainDatabase, blk *types
 	fl["h"] = int(blk.Height())
 	fl["miner"] = a.byAddr[blk.MinerAddress()]
 	fl["hgu"] = blk.GasUsed()
-	fl["pre"] = a.state(db, blk.ParentHash(), &bad)
+	if a.logPre { // the state at the parent is the committed state the monitor already holds; logged by the probe driver only
+		fl["pre"] = a.state(db, blk.ParentHash(), &bad)
+	}
 	fl["post"] = a.state(db, blk.Hash(), &bad)
 	fl["inexact"] = bad
 	touched := map[string]bool{}
@@ -674,18 +689,46 @@ func (a *adapter) Apply(s engine.Step) (engine.Fields, error) {
 	return fl, nil
 }
 
-func (a *adapter) Close() {
-	for _, n := range []*node.Node{a.B, a.V, a.gen} {
+// Retired nodes are not closed at once: the store writes the index data of stable blocks from a background goroutine
+// that panics (killing the process) when the database is closed underneath it (SyncFileDB.afterWriteExtend).  A node is
+// closed 20 s after its last use; at the end of the run the directories are removed without closing.
+type retiredNode struct {
+	n  *node.Node
+	at time.Time
+}
+
+func (a *adapter) retire(ns ...*node.Node) {
+	for _, n := range ns {
 		if n != nil {
-			n.Destroy()
+			a.retired = append(a.retired, retiredNode{n, time.Now()})
 		}
 	}
+}
+
+func (a *adapter) reap(all bool) {
+	var keep []retiredNode
+	for _, r := range a.retired {
+		if time.Since(r.at) > 20*time.Second {
+			r.n.Destroy()
+		} else if all {
+			os.RemoveAll(r.n.Dir)
+		} else {
+			keep = append(keep, r)
+		}
+	}
+	a.retired = keep
+}
+
+func (a *adapter) Close() {
+	a.retire(a.B, a.V, a.gen)
+	a.B, a.V, a.gen = nil, nil, nil
+	a.reap(true)
 }
 
 // probe runs the given spec actions (TLA+ syntax, e.g. 'Transfer("a1","a2",100,"a1","ok")' EndBlock) on fresh real
 // nodes and prints the events: `vh drive ledger-probe <action>...` - the concrete reproducer of any logged behaviour.
 func probe(args []string) error {
-	a := &adapter{}
+	a := &adapter{logPre: true}
 	defer a.Close()
 	enc := json.NewEncoder(os.Stdout)
 	t0 := time.Now()
